@@ -7,6 +7,10 @@ COQ = os.path.join(ROOT, "coq")
 HARNESS = os.path.join(ROOT, "harness")
 BUILD = os.path.join(ROOT, ".build")
 TARGET = os.path.join(BUILD, "target")
+# second harness crate: tevec with the `polars` feature (cold build ~40-60 s, ~1 GB of artefacts); only the
+# binaries a property lists under `bins_thorough_pl` are built from it, and only in the thorough tier
+HARNESS_PL = os.path.join(ROOT, "harness-pl")
+TARGET_PL = os.path.join(BUILD, "target-pl")
 _sib = os.path.join(os.path.dirname(ROOT), "repo")
 REPO = os.environ.get("TEVEC_REPO") or (_sib if ROOT != "/verif" and os.path.isdir(_sib) else "/repo")
 
@@ -160,16 +164,21 @@ def coqchk(prop):
 
 # --------------------------------------------------------------------------- harness side
 
-def build_harness(binname, release=False):
-    with Lock("cargo.lock"):
-        lock = os.path.join(HARNESS, "Cargo.lock")
-        src = os.path.join(REPO, "Cargo.lock")
-        if not os.path.exists(lock) and os.path.exists(src):
+def build_harness(binname, release=False, hdir=HARNESS, target=TARGET):
+    """hdir/target: the harness crate to build from and its cargo target directory (default: harness/ into
+    .build/target; the Polars crate harness-pl/ goes into .build/target-pl)"""
+    with Lock("cargo.lock" if hdir == HARNESS else "cargo-%s.lock" % os.path.basename(hdir)):
+        lock = os.path.join(hdir, "Cargo.lock")
+        # the repo's lock file pins the versions that are in the offline registry cache (polars 0.46 ...); a work
+        # tree of the repo has no lock file of its own (it is git-ignored there), the main checkout has
+        srcs = [os.path.join(REPO, "Cargo.lock")] + (["/repo/Cargo.lock"] if hdir != HARNESS else [])
+        src = next((x for x in srcs if os.path.exists(x)), None)
+        if not os.path.exists(lock) and src:
             shutil.copy(src, lock)
         cmd = ["cargo", "build", "--offline", "--bin", binname] + (["--release"] if release else [])
-        rc, out = sh(cmd, cwd=HARNESS, timeout=1500,
-                     env={"RUSTFLAGS": "--cfg tevec_verif", "CARGO_TARGET_DIR": TARGET})
-        return rc, out, os.path.join(TARGET, "release" if release else "debug", binname)
+        rc, out = sh(cmd, cwd=hdir, timeout=1500,
+                     env={"RUSTFLAGS": "--cfg tevec_verif", "CARGO_TARGET_DIR": target})
+        return rc, out, os.path.join(target, "release" if release else "debug", binname)
 
 def run_harness(binpath, seed, tier, only=None):
     """runs the harness binary; restarts after a case that aborts the process (non-unwinding panic,
@@ -410,11 +419,18 @@ def check(prop, tier, seed, only=None, only_bin=None):
 
     # ---- 2. harness from the current /repo tree ------------------------------------
     all_cases, all_aborts, build_fail = [], [], None
-    bins = cfg["bins"] if only_bin is None else [only_bin]
+    pl_bins = cfg.get("bins_thorough_pl", [])      # built from harness-pl/ (polars feature), thorough tier only
+    bins = (cfg["bins"] + (pl_bins if tier == "thorough" else [])) if only_bin is None else [only_bin]
     modes = [False] + ([True] if tier == "thorough" and cfg.get("release", False) else [])
     for b in bins:
         for rel in modes:
-            rc, out, binpath = build_harness(b, release=rel)
+            if b in pl_bins:
+                if rel: continue
+                tb = time.time()
+                rc, out, binpath = build_harness(b, hdir=HARNESS_PL, target=TARGET_PL)
+                cov.setdefault("polars_harness_build_s", {})[b] = round(time.time() - tb, 1)
+            else:
+                rc, out, binpath = build_harness(b, release=rel)
             if rc != 0:
                 build_fail = (b, out[-8000:]); break
             cases, aborts = run_harness(binpath, seed, tier, only=only)
